@@ -25,10 +25,10 @@ META = {
     "explanation": "",
     "assumptions": ["documents follow one schema (a path is an object in every document that has it)",
                     "pointer patterns select object members, not array elements (array elements cannot be deleted by the merge)",
-                    "jsonpatch/jsonpointer libraries are trusted for APPLYING a patch (not for making one)", "string hash seeds 0..3 (quick) / 0..7 (thorough) for the patch round trip, 0 and 2 for chains, 0 elsewhere"],
+                    "jsonpatch/jsonpointer libraries are trusted for APPLYING a patch (not for making one)", "string hash seeds 0..3 (quick) / 0..4 (thorough) for the patch round trip, 0 and 2 for chains, 0 elsewhere"],
     "outside": ["pointer patterns that index into arrays", "documents outside the schema", "safe ACLs (acl_safe)"],
     "bounds": {"quick": "patch: 128x128 documents (arrays up to 4 elements incl. permutations) under 4 hash seeds; fragment: 64 old x 32 fragments x 24 pointer lists",
-               "thorough": "patch: 648x648 under 8 hash seeds; fragment: 128 x 64 x 90 pointer lists"},
+               "thorough": "patch: 648x648 under 5 hash seeds; fragment: 128 x 64 x 90 pointer lists"},
 }
 
 # ---------------------------------------------------------------- RefJson
@@ -292,7 +292,7 @@ def h_fragment(case: int) -> bool:
 
 
 CH_ACL = [["/a"], ["/a/x"], ["/*"], ["/t~0ilde/*"], ["/k~1ey", "/s"]]
-CHN = 2 if rt.TIER == "quick" else 8
+CHN = 2 if rt.TIER == "quick" else 6
 NCH = NFO * CHN * len(CH_ACL) * CHN * len(CH_ACL) * 4
 CLO, CHI = rt.shard_range(NCH)
 
@@ -387,7 +387,7 @@ def plan(tier):
         # jsonpatch iterates over sets of keys: the operations it emits (and whether its move optimisation goes wrong)
         # depend on the interpreter's string hash seed, so the patch round trip is explored under several seeds
         dict(name="patch[hashseed=%d]" % hs, func="h_patch", shards=8 if q else 24, timeout=250 if q else 2500,
-             env={"PYTHONHASHSEED": hs}) for hs in ((1, 2, 3) if q else (1, 2, 3, 4, 5, 6, 7))
+             env={"PYTHONHASHSEED": hs}) for hs in ((1, 2, 3) if q else (1, 2, 3, 4))
     ] + [
         dict(name="chain[hashseed=2]", func="h_chain", shards=8 if q else 24, timeout=250 if q else 2500, env={"PYTHONHASHSEED": 2}),
         dict(name="chain.symbolic-prios", func="h_chain_prio", shards=1, timeout=200 if q else 600,
